@@ -42,7 +42,7 @@ def _qt(g, name, shape, dtype, r, qmode=None):
 
 def fam_hostile(seed):
     r = rng_for("hostile", seed)
-    kind = int(r.integers(0, 14))
+    kind = int(r.integers(0, 15))
     g = G(r, "int8")
     sub = "?"
     if kind == 0:  # unary builtin on random rank / dtype
@@ -255,6 +255,43 @@ def fam_hostile(seed):
             outs = [g.slice(x, [0, int(r.integers(0, h)), 0, 0], [1, 1, w, c])]
         else:
             outs = [g.strided_slice(x, [0, 1, 0, 0], [1, h, w, c // 2])]
+    elif kind == 13:  # weight-carrying operator with one tensor lacking quantisation parameters
+        sub = "partial-quant"
+        dt = str(r.choice(["int8", "int8", "uint8"]))
+        wdt = "uint8" if dt == "uint8" else "int8"
+        h, w, c, oc = int(r.choice([1, 4, 6])), int(r.choice([1, 4])), int(r.choice([3, 8, 16])), int(r.choice([4, 8]))
+        missing = str(r.choice(["weights", "weights", "bias", "ifm", "ofm", "weights+bias"]))
+        op = str(r.choice(["conv", "conv", "fc", "dw"]))
+        q = lambda name, sc, zp: (None, None) if name in missing.split("+") else (sc, zp)  # noqa: E731
+        if op == "fc":
+            sc, zp = q("ifm", [0.05], [0])
+            g.net.add_t("in", [1, c], dt, sc, zp)
+            sc, zp = q("weights", [0.01], [0 if wdt == "int8" else 128])
+            g.const("w", (oc, c), wdt, g.rweights((oc, c)) + (0 if wdt == "int8" else 128), sc, zp)
+            sc, zp = q("bias", [0.0005], [0])
+            g.const("b", (oc,), "int32", r.integers(-100, 100, (oc,)), sc, zp)
+            sc, zp = q("ofm", [0.1], [0])
+            g.net.add_t("o", [1, oc], dt, sc, zp)
+            g.net.add_o(BO.FULLY_CONNECTED, ["in", "w", "b"], ["o"], "FullyConnectedOptions", dict(fused_activation_function=0), 4)
+        else:
+            sc, zp = q("ifm", [0.05], [0])
+            g.net.add_t("in", [1, h, w, c], dt, sc, zp)
+            ocn = c if op == "dw" else oc
+            wshape = (1, 1, 1, c) if op == "dw" else (oc, 1, 1, c)
+            sc, zp = q("weights", [0.01], [0 if wdt == "int8" else 128])
+            g.const("w", wshape, wdt, g.rweights(wshape) + (0 if wdt == "int8" else 128), sc, zp)
+            sc, zp = q("bias", [0.0005], [0])
+            g.const("b", (ocn,), "int32", r.integers(-100, 100, (ocn,)), sc, zp)
+            sc, zp = q("ofm", [0.1], [0])
+            g.net.add_t("o", [1, h, w, ocn], dt, sc, zp)
+            if op == "dw":
+                g.net.add_o(BO.DEPTHWISE_CONV_2D, ["in", "w", "b"], ["o"], "DepthwiseConv2DOptions",
+                            dict(padding=PAD_SAME, stride_w=1, stride_h=1, depth_multiplier=1, dilation_w_factor=1, dilation_h_factor=1, fused_activation_function=0), 3)
+            else:
+                g.net.add_o(BO.CONV_2D, ["in", "w", "b"], ["o"], "Conv2DOptions",
+                            dict(padding=PAD_SAME, stride_w=1, stride_h=1, dilation_w_factor=1, dilation_h_factor=1, fused_activation_function=0), 3)
+        g.net.inputs.append("in")
+        outs = ["o"]
     else:  # custom operator + unsupported + supported sandwich
         sub = "custom-sandwich"
         x = g.input([1, 4, 4, 8])
